@@ -3704,20 +3704,8 @@ where
 
   fn visit_identifier(&mut self, ident: &Identifier<'a>) -> visitor::Result<Error<T>> {
     if let Some(name) = self.state.eval_generic_rule {
-      if let Some(gr) = self
-        .state
-        .generic_rules
-        .iter()
-        .find(|&gr| gr.name == name)
-        .cloned()
-      {
-        for (idx, gp) in gr.params.iter().enumerate() {
-          if *gp == ident.ident {
-            if let Some(arg) = gr.args.get(idx) {
-              return self.visit_type1(arg);
-            }
-          }
-        }
+      if let Some(arg) = resolve_generic_param(&self.state.generic_rules, name, ident.ident) {
+        return self.visit_type1(&arg);
       }
     }
 
